@@ -1,7 +1,9 @@
 """Triage helper: run debugger commands against a compiled program.
 usage: dbgw.py 'src' cmd1 cmd2 ..."""
 import sys, traceback
-sys.path.insert(0, '/repo'); sys.path.insert(0, '/repo/tests')
+import os
+ROOT = os.environ.get('QBEE_REPO', '/repo')
+sys.path.insert(0, ROOT); sys.path.insert(0, ROOT + '/tests')
 src = sys.argv[1].replace('\\n', '\n')
 from qbee.compiler import Compiler
 from qbee import qvm_codegen
